@@ -1255,3 +1255,85 @@ Proof.
   intros Hcap Hnc Hwf Hr. pose proof (wf_reachable_W cap vss nc nd c0 c Hcap Hnc Hwf Hr) as HW.
   eapply Forall_impl; [|apply (W_shape c HW)]. apply shape_not_stuck.
 Qed.
+
+(* ------------------------------------------------------------------------- *)
+(* constructors, both directions: the N AddValue calls return iff N <= capacity *)
+(* ------------------------------------------------------------------------- *)
+
+Definition ctor_J (cap : nat) (xs : list Z) (c : config) : Prop :=
+  exists k th s, threads c = [th] /\ queues c = [s] /\ tloop th = LNone /\
+    tcalls th = map (CAdd 0) (skipn k xs) /\ qclosed s = false /\ qtok s = k /\ qcap s = cap /\
+    (tph th = PIdle \/ (tph th = PSend 0 /\ k < length xs)).
+
+Lemma skipn_cons_S {A} k (l : list A) a r : skipn k l = a :: r -> skipn (S k) l = r /\ k < length l.
+Proof.
+  revert l; induction k as [|k IH]; intros [|h tl] H; simpl in *; try discriminate.
+  - inversion H; subst. split; [reflexivity|lia].
+  - destruct (IH tl H) as [A1 A2]. split; [exact A1|lia].
+Qed.
+
+Lemma ctor_J_step cap xs c t c' : ctor_J cap xs c -> step c t = Some c' -> ctor_J cap xs c'.
+Proof.
+  intros (k & th & s & Hths & Hqs & Hl & Hcalls & Hclo & Htk & Hcp & Hphase) H.
+  pose proof (step_tid _ _ _ H) as Hlt. rewrite Hths in Hlt. simpl in Hlt.
+  assert (t = 0) by lia. subst t.
+  assert (Gt : gett c 0 = th) by (unfold gett; now rewrite Hths).
+  assert (Gq : getq c 0 = s) by (unfold getq; now rewrite Hqs).
+  subst th s.
+  apply step_stepR in H.
+  destruct Hphase as [Hp|[Hp Hk]].
+  - (* between calls *)
+    stepR_cases H; try congruence; rewrite Hcalls in Hc;
+      destruct (skipn k xs) as [|z zs] eqn:Hsk; simpl in Hc; try discriminate;
+      inversion Hc; subst q v rest.
+    destruct (skipn_cons_S _ _ _ _ Hsk) as [Hsk' Hk].
+    exists k, (in_phase (gett c 0) (PSend 0)),
+      {| qvals := qvals (getq c 0) ++ [z]; qtok := qtok (getq c 0);
+         qcap := qcap (getq c 0); qclosed := qclosed (getq c 0);
+         qapp := qapp (getq c 0) ++ [z]; qpop := qpop (getq c 0) |}.
+    simpl. rewrite Hths, Hqs. simpl. rewrite Hcalls, Hsk. simpl. repeat split; auto.
+  - (* before the send *)
+    stepR_cases H; try congruence; rewrite Hp in Hph; inversion Hph; subst q;
+      rewrite Hcalls in Hc;
+      destruct (skipn k xs) as [|z zs] eqn:Hsk; simpl in Hc; try discriminate;
+      inversion Hc; subst q1 v rest.
+    destruct (skipn_cons_S _ _ _ _ Hsk) as [Hsk' _].
+      exists (S k), (finish (gett c 0) (map (CAdd 0) zs) RAdded),
+        {| qvals := qvals (getq c 0); qtok := S (qtok (getq c 0)); qcap := qcap (getq c 0);
+           qclosed := false; qapp := qapp (getq c 0); qpop := qpop (getq c 0) |}.
+      rewrite Hsk'. simpl. rewrite Hths, Hqs. simpl. repeat split; auto.
+Qed.
+
+Lemma ctor_J_init cap xs : ctor_J cap xs (ctor_config cap xs).
+Proof.
+  exists 0, (client (map (CAdd 0) xs)), (mkq cap). simpl. repeat split; auto.
+Qed.
+
+(* with fewer slots than values the constructor never returns, under any schedule *)
+Theorem ctor_unsized_never_returns cap xs sched :
+  cap < length xs -> final (run (ctor_config cap xs) sched) = false.
+Proof.
+  intros Hlt.
+  assert (HJ : ctor_J cap xs (run (ctor_config cap xs) sched)).
+  { apply (run_ind_inv (ctor_J cap xs)); [apply ctor_J_step | apply ctor_J_init]. }
+  assert (HI : Inv (run (ctor_config cap xs) sched)).
+  { apply run_inv. apply initial_inv. split; [exists [cap]; reflexivity | repeat constructor]. }
+  destruct HJ as (k & th & s & Hths & Hqs & Hl & Hcalls & Hclo & Htk & Hcp & Hphase).
+  pose proof (tok_le_cap _ 0 HI) as Hle. unfold getq in Hle. rewrite Hqs in Hle. simpl in Hle.
+  unfold final. rewrite Hths. simpl. rewrite andb_true_r. unfold thread_done.
+  destruct Hphase as [Hp|[Hp Hk]]; rewrite Hp; auto.
+  rewrite Hcalls. destruct (skipn k xs) as [|z zs] eqn:Hsk; auto.
+  exfalso. assert (length (skipn k xs) = 0) by now rewrite Hsk.
+  rewrite skipn_length in H. lia.
+Qed.
+
+Theorem ctor_returns_iff cap xs :
+  (exists sched, final (run (ctor_config cap xs) sched) = true) <-> length xs <= cap.
+Proof.
+  split.
+  - intros [sched Hf]. destruct (Nat.le_gt_cases (length xs) cap) as [|Hgt]; auto.
+    rewrite (ctor_unsized_never_returns cap xs sched Hgt) in Hf. discriminate.
+  - intros Hle. exists (repeat 0 (2 * length xs)).
+    pose proof (ctor_run cap xs [] [] Hle) as H. apply run_strict_run in H.
+    change (ctor_state cap [] xs []) with (ctor_config cap xs) in H. rewrite H. reflexivity.
+Qed.
